@@ -231,13 +231,15 @@ theorem service_rename_counterexample :
   · rw [h.1, h.2]; simp
   · rw [h.1, h.2]
 
-/-- Finding `catalog:node-services:name-shorter-than-2`: `register m @10`, `deregister m @12`:
-    NodeServices("m") goes from (10, node m) to (0, nothing) — the result changes and the index goes DOWN. -/
-theorem node_services_short_name_counterexample :
+/-- Former finding `catalog:node-services:name-shorter-than-2` (repaired in /repo 8ebfe04; kept as a regression
+    witness): `register m @10`, `deregister m @12`: NodeServices("m") goes from (10, node m) to (12, nothing) —
+    the result changes and the index moves UP to the command's index (it used to fall to 0). -/
+theorem node_services_short_name_repaired :
     let s := wShort
     let s' := (apply s 12 deregM).1
     ((Query.nodeServices "m").run s').2 ≠ ((Query.nodeServices "m").run s).2 ∧
-    ((Query.nodeServices "m").run s').1 < ((Query.nodeServices "m").run s).1 := by
+    ((Query.nodeServices "m").run s).1 < ((Query.nodeServices "m").run s').1 ∧
+    ((Query.nodeServices "m").run s').1 = 12 := by
   simp only [wShort2_reached]
   have h := short_run
   rw [h.1, h.2]; simp
@@ -552,8 +554,8 @@ theorem table_query_blocking_sound (q : Query) (hq : q.tableLevel = true) (s0 : 
 
 The counterexamples above are the ONLY ways these read paths break the contract. Hypotheses, all decidable
 on the command (and, further down, on the whole log):
-  * node names are NUL-free when lower-cased (`NF`), and the queried node name has at least two bytes
-    (finding `catalog:node-services-short-name`);
+  * node names are NUL-free when lower-cased (`NF`) (the former second restriction — a queried node name of at
+    least two bytes, finding `catalog:node-services-short-name` — is gone since /repo 8ebfe04);
   * `D : Disc` fixes the service name of every instance key (node, id) and the service id of every check key
     (node, id): no instance is renamed in place (`catalog:service-renamed-in-place`), no check is rebound to
     another service (`catalog:check-rebound`). -/
@@ -573,25 +575,23 @@ theorem nodesNF_ok {c : Cmd} (h : NodesNF c) : c.ok nodeGuard :=
 theorem nodeStep_start {n : String} {s : State} {m i : Nat} (hI : NodeInv m s) (hi : m ≤ i) : NodeStep n i s s :=
   ⟨hI.1.mono hi, hI.2.1, hI.2.2, Or.inl ⟨rfl, rfl⟩⟩
 
-theorem len_xx : 2 ≤ "xx".length := by decide
-
 /-- one command keeps the invariant -/
 theorem node_inv_step (s : State) (m i : Nat) (c : Cmd) (h : NodeInv m s) (hi : m ≤ i) (hc : NodesNF c) :
     NodeInv i (apply s i c).1 := by
-  have L := node_apply (n := "xx") len_xx c (nodesNF_ok hc) (nodeStep_start h hi)
+  have L := node_apply (n := "xx") c (nodesNF_ok hc) (nodeStep_start h hi)
   exact ⟨L.le, L.nf_svc, L.nf_node⟩
 
 theorem node_inv_empty : NodeInv 0 State.empty :=
   ⟨idx_inv_empty, by intro v hv; simp [State.empty] at hv, by intro v hv; simp [State.empty] at hv⟩
 
-/-- PARTIAL (full statement refuted by `node_services_short_name_counterexample`): NodeServices(n) for a node
-    name of at least two bytes. If the result changes — the node row, or the set of service instances on the
+/-- PARTIAL (only the NUL-free naming discipline `NodesNF` is left as a hypothesis): NodeServices(n) for EVERY node
+    name, incl. names shorter than `minUUIDLookupLen`. If the result changes — the node row, or the set of service instances on the
     node — the new index is exactly the command's index, strictly above the old one. Every command type. -/
-theorem node_services_change_bumps_index_partial (n : String) (hn : 2 ≤ n.length) (s : State) (m i : Nat) (c : Cmd)
+theorem node_services_change_bumps_index_partial (n : String) (s : State) (m i : Nat) (c : Cmd)
     (hI : NodeInv m s) (hi : m < i) (hc : NodesNF c)
     (hch : ((Query.nodeServices n).run (apply s i c).1).2 ≠ ((Query.nodeServices n).run s).2) :
     ((Query.nodeServices n).run (apply s i c).1).1 = i ∧ ((Query.nodeServices n).run s).1 < i := by
-  have L := node_apply hn c (nodesNF_ok hc) (nodeStep_start (n := n) hI (Nat.le_of_lt hi))
+  have L := node_apply c (nodesNF_ok hc) (nodeStep_start (n := n) hI (Nat.le_of_lt hi))
   rw [nodeServices_idx, nodeServices_idx]
   have hold := nsIdx_le hI.1 n
   rcases L.view with ⟨hv, -⟩ | hf
@@ -599,11 +599,11 @@ theorem node_services_change_bumps_index_partial (n : String) (hn : 2 ≤ n.leng
   · exact ⟨hf, by omega⟩
 
 /-- … and the same for NodeServiceList(n), whose result additionally depends on whether its index is 0. -/
-theorem node_service_list_change_bumps_index_partial (n : String) (hn : 2 ≤ n.length) (s : State) (m i : Nat) (c : Cmd)
+theorem node_service_list_change_bumps_index_partial (n : String) (s : State) (m i : Nat) (c : Cmd)
     (hI : NodeInv m s) (hi : m < i) (hc : NodesNF c)
     (hch : ((Query.nodeServiceList n).run (apply s i c).1).2 ≠ ((Query.nodeServiceList n).run s).2) :
     ((Query.nodeServiceList n).run (apply s i c).1).1 = i ∧ ((Query.nodeServiceList n).run s).1 < i := by
-  have L := node_apply hn c (nodesNF_ok hc) (nodeStep_start (n := n) hI (Nat.le_of_lt hi))
+  have L := node_apply c (nodesNF_ok hc) (nodeStep_start (n := n) hI (Nat.le_of_lt hi))
   rw [nodeServiceList_idx, nodeServiceList_idx]
   have hold := nsIdx_le hI.1 n
   rcases L.view with ⟨hv, hx⟩ | hf
@@ -612,11 +612,11 @@ theorem node_service_list_change_bumps_index_partial (n : String) (hn : 2 ≤ n.
 
 /-- PARTIAL index monotonicity of NodeServices / NodeServiceList: no decrease across ANY command (a tombstone reap
     does not touch the catalog index rows). -/
-theorem node_services_index_monotone_partial (n : String) (hn : 2 ≤ n.length) (s : State) (m i : Nat) (c : Cmd)
+theorem node_services_index_monotone_partial (n : String) (s : State) (m i : Nat) (c : Cmd)
     (hI : NodeInv m s) (hi : m ≤ i) (hc : NodesNF c) :
     ((Query.nodeServices n).run s).1 ≤ ((Query.nodeServices n).run (apply s i c).1).1 ∧
     ((Query.nodeServiceList n).run s).1 ≤ ((Query.nodeServiceList n).run (apply s i c).1).1 := by
-  have L := node_apply hn c (nodesNF_ok hc) (nodeStep_start (n := n) hI hi)
+  have L := node_apply c (nodesNF_ok hc) (nodeStep_start (n := n) hI hi)
   rw [nodeServices_idx, nodeServices_idx, nodeServiceList_idx, nodeServiceList_idx]
   have hold := nsIdx_le hI.1 n
   rcases L.view with ⟨-, hx⟩ | hf
@@ -769,8 +769,7 @@ theorem svc_inv_stateAt (D : Disc) (s0 : State) (m : Nat) (log : Log) (h : SvcIn
 /-- the read paths of this section (NodeServiceList is not among them: its result also depends on whether its
     index is 0, which no channel of its WatchSet reports) -/
 def Query.disciplined : Query → Prop
-  | .nodeServices n => 2 ≤ n.length
-  | .serviceNodes _ | .csn _ => True
+  | .nodeServices _ | .serviceNodes _ | .csn _ => True
   | _ => False
 
 /-- CHANGE ⇒ WATCH for CheckServiceNodes INCLUDING the watch-set optimisation, between any two states of a
@@ -803,7 +802,7 @@ theorem check_service_nodes_change_fires_watch (D : Disc) (N : String) (s0 : Sta
     simp [Query.fired, Query.watch, he', hv, WatchItem.changed]
     rw [hv] at hne; exact hne
 
-/-- THE PROPERTY, END TO END, for NodeServices (node name ≥ 2 bytes), ServiceNodes and CheckServiceNodes: take any
+/-- THE PROPERTY, END TO END, for NodeServices (every node name), ServiceNodes and CheckServiceNodes: take any
     store state whose catalog follows a discipline `D` (bound `m ≥ 1`), any well-indexed history of commands of
     any type that follow `D`, any schedule of wake-ups. A client that was given the result of state `a` and
     blocks on its index either gets an answer with a strictly larger index, or — if the request times out — NO
@@ -830,7 +829,7 @@ theorem disciplined_query_blocking_sound (D : Disc) (q : Query) (hq : q.discipli
       apply reported_mono
       cases q <;> simp only [Query.disciplined] at hq
       · exact (service_index_monotone_partial D _ _ _ _ _ (inv k) (Nat.le_of_lt hn.1) (cok k hk')).1
-      · exact (node_services_index_monotone_partial _ hq _ _ _ _ (ninv k) (Nat.le_of_lt hn.1) (cok k hk').nodes).1
+      · exact (node_services_index_monotone_partial _ _ _ _ _ (ninv k) (Nat.le_of_lt hn.1) (cok k hk').nodes).1
       · exact (service_index_monotone_partial D _ _ _ _ _ (inv k) (Nat.le_of_lt hn.1) (cok k hk')).2
     · intro k _ hk hch
       have hk' : k < log.length := hk
@@ -842,7 +841,7 @@ theorem disciplined_query_blocking_sound (D : Disc) (q : Query) (hq : q.discipli
       cases q <;> simp only [Query.disciplined] at hq
       · have := service_nodes_change_bumps_index_partial D _ _ _ _ _ (inv k) hn.1 (cok k hk') hch'
         rw [this.1]; exact reported_strict this.2 h2i
-      · have := node_services_change_bumps_index_partial _ hq _ _ _ _ (ninv k) hn.1 (cok k hk').nodes hch'
+      · have := node_services_change_bumps_index_partial _ _ _ _ _ (ninv k) hn.1 (cok k hk').nodes hch'
         rw [this.1]; exact reported_strict this.2 h2i
       · have := check_service_nodes_change_bumps_index_partial D _ _ _ _ _ (inv k) hn.1 (cok k hk') hch'
         rw [this.1]; exact reported_strict this.2.1 h2i
